@@ -3,6 +3,7 @@ import contextlib
 import io
 import json
 import os
+import shutil
 import sys
 import tempfile
 from fractions import Fraction
@@ -177,6 +178,7 @@ def main(tier, seed, replay=None):
         for f in failing:
             if f[0] == "case":
                 run.notes.append("model/implementation disagreement on document %d (%s)" % (f[1], docs[f[1]]["scheme"]))
+    shutil.rmtree(os.path.join(GEN, "cml-%d" % os.getpid()), ignore_errors=True)
     run.settle_broken(found_input)
     return run.finish(
         rule="generated Avogadro-flavour CML documents: 1-30 atoms; id schemes sequential, shuffled, arbitrary strings, numbers with gaps, ids differing "
